@@ -803,7 +803,7 @@ func posCondStr(conds []Cond) (string, bool) {
 	// first positive `x == "lit"` among conds
 	for _, cd := range conds {
 		b, ok := cd.V.(*ssa.BinOp)
-		if !ok || b.Op != token.EQL || !cd.Sense {
+		if !ok || !eqHolds(b, cd) {
 			continue
 		}
 		if s, ok := constStr(b.Y); ok {
@@ -819,7 +819,7 @@ func posCondStr(conds []Cond) (string, bool) {
 func posCondInt(conds []Cond, of ssa.Value) (int64, bool) {
 	for _, cd := range conds {
 		b, ok := cd.V.(*ssa.BinOp)
-		if !ok || b.Op != token.EQL || !cd.Sense {
+		if !ok || !eqHolds(b, cd) {
 			continue
 		}
 		if of != nil && stripConv(b.X) != of && stripConv(b.Y) != of {
@@ -1357,7 +1357,7 @@ func rulePeephole(c *Ctx) {
 					}
 					switch cl.Call.StaticCallee() {
 					case getOp:
-						if k, ok := constInt(other); ok && b.Op == token.EQL && cd.Sense {
+						if k, ok := constInt(other); ok && eqHolds(b, cd) {
 							if nm, isLoad := loads[k]; isLoad {
 								optests = append(optests, wtest{vkey(cl.Call.Args[0]), nm})
 							}
@@ -1445,9 +1445,23 @@ func ruleCallFrameRegs(c *Ctx) {
 		for _, cl := range callsTo(fn, cra) {
 			n++
 			site = cl
-			nvars, ok := constInt(cl.Call.Args[4])
+			// the arguments are found through the callee's formals by type, not by position (a reordered
+			// parameter list is the same call): names is the []string, nvars the second int (reg, nvars, line)
+			iNames, iNvars, ints := 1, 4, 0
+			for i, pm := range cra.Params {
+				switch pm.Type().String() {
+				case "[]string":
+					iNames = i
+				case "int":
+					ints++
+					if ints == 2 {
+						iNvars = i
+					}
+				}
+			}
+			nvars, ok := constInt(cl.Call.Args[iNvars])
 			ln := int64(-1)
-			if sl, isSl := cl.Call.Args[1].(*ssa.Slice); isSl {
+			if sl, isSl := cl.Call.Args[iNames].(*ssa.Slice); isSl {
 				if pt, ok := sl.X.Type().Underlying().(*types.Pointer); ok {
 					if at, ok := pt.Elem().Underlying().(*types.Array); ok && sl.Low == nil && sl.High == nil {
 						ln = at.Len()
